@@ -40,6 +40,7 @@ def shards(tier, seed):
     for i in range(4):
         out.append(("jac_small_%d" % i, dict(kind="jac_small", nmax=jmax, part=i, parts=4)))
     out.append(("jac_big", dict(kind="jac_big", count=2000 if q else 30000)))
+    out.append(("jac_worstcase", dict(kind="jac_worst", maxbits=1000)))
     return out
 
 
@@ -171,6 +172,34 @@ def run(ctx, name, kind, **kw):
             f = nt.factor(n)
             for a in range(-n, 2 * n + 1):
                 check_jac(ctx, a, n, f, "jacobi.small")
+    elif kind == "jac_worst":
+        # consecutive terms of x[k+1] = 2 x[k] + x[k-1] (all odd): the slowest inputs for the Euclid-like recursion, one level per
+        # ~1.27 bits; oracle = iterative reference (factorisation unknown).  Also a + k*n (oversized a) and negative a.
+        x0, x1 = 1, 3
+        seq = [x0, x1]
+        while seq[-1].bit_length() < kw["maxbits"]:
+            seq.append(2 * seq[-1] + seq[-2])
+        for i in range(4, len(seq), 7):
+            n, a = seq[i], seq[i - 1]
+            for aa in (a, a + n, a - n, a + 5 * n, n - a):
+                want = nt.jacobi_iter(aa, n)
+                try:
+                    got = NT.jacobi(aa, n)
+                except Exception as e:
+                    ctx.case("jacobi.worst_case_chain", key="exc")
+                    ctx.violation("jacobi_raises", "jacobi(a, n) with n of %d bits (worst-case Euclid chain) raised %s" % (n.bit_length(), type(e).__name__), dict(a=aa, n=n), _repro("jacobi", aa, n))
+                    break
+                ctx.case("jacobi.worst_case_chain", key="%d" % (n.bit_length() // 100), sample=dict(fn="jacobi", n_bits=n.bit_length(), a=aa, n=n, result=got) if ctx.want("jacobi.worst_case_chain") else None)
+                ctx.check(got == want, "jacobi_wrong", "jacobi on a %d-bit worst-case pair = %r, iterative reference %d" % (n.bit_length(), got, want), dict(a=aa, n=n), _repro("jacobi", aa, n))
+        # the same shape as a prime modulus for the square root (p = 1 mod 8 branch calls jacobi repeatedly)
+        for i in range(10, len(seq), 3):
+            p = seq[i]
+            if p.bit_length() > 900:
+                break
+            if p % 8 != 1 and nt.is_prime(p, 4):
+                t = rng.randrange(2, p)
+                check_sqrt(ctx, t * t % p, p, extra="chain")
+                check_sqrt(ctx, seq[i - 1] % p, p, extra="chain")
     elif kind == "jac_big":
         small = [p for p in nt.primes_below(2000) if p > 2]
         for _ in range(kw["count"] // 8):
